@@ -117,6 +117,6 @@ theorem walls_periodic_closest (p : RParams ℝ) (i : Nat) (x l u P : ℝ)
 theorem dUdk_is_potential_per_k (p : RParams ℝ) (k : ℝ) (cs : List ℝ) (i : Nat) (x : ℝ) :
     rPotential p k cs i x = k * rDUdk p cs i x := by
   unfold rPotential rDUdk
-  cases p.kind <;> simp only [lit_half] <;> ring
+  cases p.kind <;> simp only [lit_half, lit_one, lit_zero] <;> ring
 
 end Cv.C06
